@@ -250,12 +250,23 @@ func ParseParameters(query string) []oid.Oid {
 		// positional parameter or an un-positional parameter.
 		// SELECT * FROM users WHERE id = ?
 		if match[1] == "" {
-			parameters = append(parameters, 0)
+			if len(parameters) < buffer.MaxPreparedStatementArgs {
+				parameters = append(parameters, 0)
+			}
+
+			continue
 		}
 
-		position, _ := strconv.Atoi(match[1]) //nolint:errcheck
-		if position > len(parameters) {
-			parameters = parameters[:position]
+		// NOTE: the highest position determines the number of parameters. The
+		// protocol is unable to address more than 65535 parameters, positions
+		// which are out of range are capped.
+		position, err := strconv.Atoi(match[1])
+		if err != nil || position > buffer.MaxPreparedStatementArgs {
+			position = buffer.MaxPreparedStatementArgs
+		}
+
+		for len(parameters) < position {
+			parameters = append(parameters, 0)
 		}
 	}
 
